@@ -1,7 +1,7 @@
 (* Dispatch table: entry name -> model entry point.  The harness names the entry on every
    case line; the same table is used by the extracted driver and by the kernel cross-check. *)
 Require Import Gengo.Base.Str Gengo.Base.Sexp.
-Require Gengo.Model.Tags Gengo.Model.JsonTag Gengo.Model.Tracker Gengo.Model.Namer Gengo.Model.Order Gengo.Model.ImportBoss Gengo.Model.Exec Gengo.Model.Snippet Gengo.Model.Files Gengo.Model.Universe Gengo.Model.Comments Gengo.Model.RawNamer Gengo.Model.BuildTags Gengo.Model.Sets Gengo.Model.DeepCopy.
+Require Gengo.Model.Tags Gengo.Model.JsonTag Gengo.Model.Tracker Gengo.Model.Namer Gengo.Model.Order Gengo.Model.ImportBoss Gengo.Model.Exec Gengo.Model.Snippet Gengo.Model.Files Gengo.Model.Universe Gengo.Model.Comments Gengo.Model.RawNamer Gengo.Model.BuildTags Gengo.Model.Sets Gengo.Model.DeepCopy Gengo.Model.Flatten.
 
 Definition entries : list (string * (sexp -> option sexp)) := [
   ("C08.old", Tags.run_old);
@@ -52,6 +52,7 @@ Definition entries : list (string * (sexp -> option sexp)) := [
   ("C02.raw", RawNamer.run_raw);
   ("C12.visible", BuildTags.run_visible);
   ("C17.ops", Sets.run_sets);
+  ("C17.flatten", Flatten.run_flatten);
   ("C16.copy", DeepCopy.run_copy)
 ]%string.
 
